@@ -155,6 +155,10 @@ CONFIG_VARIANTS = [
     ("KC", dict(period=2, multiplier=1.5), 2, dict(input_value="low")),
     ("TSI", dict(period=3), 3, dict()),
     ("VWMA", dict(period=3), 2, dict(round_value=1)),
+    ("BBANDS", dict(period=2), 2, dict(name_suffix="v1.5")),
+    ("STOCH", dict(period=2, slow_period=2, smoothing_k=2), 3, dict(fullname_override="st.och")),
+    ("OBV", dict(), 0, dict(name_suffix="v1.5")),
+    ("VWAP", dict(), 0, dict(fullname_override="my.vwap")),
 ]
 
 
